@@ -184,6 +184,14 @@ func checkFormat(c *core.Ctx, format string, args map[string]string, viaConst bo
 		c.Violation(k, "Format(%+q, %v)=%+q: scheme/authority %q%q differ from those of the format, %q%q", format, args, res.String(), mr[1], mr[3], ms[1], ms[3])
 		return
 	}
+	// what a URL parser makes of the result: as many path segments as of the format with
+	// harmless one-character arguments, i.e. no argument makes the path climb
+	if strings.HasPrefix(mf, "/") || strings.Contains(mf, "//") {
+		if dm, dr := refs.NormalizedDepth(mf), refs.NormalizedDepth(res.String()); dm != dr {
+			c.Violation(k, "Format(%+q, %v)=%+q: a URL parser resolves the path to %d segments, the format with harmless arguments (%+q) to %d", format, args, res.String(), dr, mf, dm)
+			return
+		}
+	}
 	if refs.DotDotTouchingArg(res.String(), spans) {
 		c.Violation(k, "Format(%+q, %v)=%+q: arguments take part in a '..' path segment", format, args, res.String())
 		return
@@ -223,6 +231,12 @@ func checkAppend(c *core.Ctx, base, s string) {
 	if lowerHex(res.String()) != lowerHex(base+e) {
 		c.Violation(k, "Append(%+q, %+q)=%+q, want %+q", base, s, res.String(), base+e)
 		return
+	}
+	if masked := base + strings.Repeat("x", len(e)); strings.HasPrefix(base, "/") || strings.Contains(base, "//") {
+		if dm, dr := refs.NormalizedDepth(masked), refs.NormalizedDepth(res.String()); dm != dr {
+			c.Violation(k, "Append(%+q, %+q)=%+q: a URL parser resolves the path to %d segments, with a harmless string of the same length (%+q) to %d", base, s, res.String(), dr, masked, dm)
+			return
+		}
 	}
 	if refs.DotDotWithArg(res.String(), []refs.Span{{A: len(base), B: len(base) + len(e)}}) {
 		c.Violation(k, "Append(%+q, %+q)=%+q: the appended string takes part in a '..' path segment", base, s, res.String())
@@ -318,11 +332,13 @@ func checkParams(c *core.Ctx, base string, params map[string]string) {
 
 var prefixes = []string{
 	"https://example.com/", "HTTPS://Example.COM/", "https://a.b:8080/", "https://[::1]/", "//example.com/", "//h/", "/", "/a", "/a/b/", "/path/to/", "about:blank#", "ABOUT:BLANK#",
+	"http\u017f://o/", "about:blan\u212a#", "HTTP\u017f://evil\u212a.example/", "/\t/evil.example/", "/\n\\evil.example/", "https://cdn.example/app/js\\", "https://cdn.example/app/js/.\t", "/static/v1\\.",
 	"http://example.com/", "https:/example.com/", "https://", "https:///x", "https://exa mple.com/", "https://user@host/", "https://h\\/", "//", "///x", "/\\evil", "//\\h/", "", "x", "a/b", "./a", "../a", "about:blank", "javascript:alert(1)//", "data:text/html,", "ftp://h/", " https://h/", "\thttps://h/", "https://h", "\\\\h\\", "about:blank?",
 }
 
 var pieces = []string{
 	"%{x}", "%{y}", "%{x}%{y}", "%{x}%{x}", ".%{x}", "%{x}.", "/%{x}", "%{x}/", "/%{x}/", "?%{x}", "?a=%{x}", "&b=%{y}", "#%{x}", "%2e%{x}", "%{x}%2E", "%2%{x}", "%%{x}", "%{}", "%{x", "%{x y}", "%{é}", "%{x_1}", "%{X}", "%{0}", "%{%{x}}",
+	"\\", "\\.", ".\t", "\t.", "\n", "\r.", " ", "/../", "/./", "/../../x", "\\..\\", "%{x}/../m.js", "%%{x}/../m.js", "%{x}\t/evil.example/x.js", "%{x}\n\\evil/x",
 	"a", "b/", "c.js", "..", "../", "./", ".", "%2e", "%2e%2e/", "//", "/", "?", "#", "?q=1", "#frag", "%", "%25", "{", "}", "é", " ", "lib/v", "@", ":", "\\", "..%2f",
 }
 
